@@ -127,9 +127,9 @@ theorem read_committed_exact (np : Nat) (ops : List Op) (hv : ∀ o ∈ ops, Op.
 /-- … and for the response as `handleFetch` builds it: every partition answered without error by a
 read_committed fetch carries a run `r.batches` of that partition's log (`pre ++ r.batches ++ rest`) whose
 consumer view is the committed data of the run. -/
-theorem fetch_read_committed_exact (parts : List Part) (hinv : ∀ pd ∈ parts, PInv pd ∧ RInv pd) (mb unk : Int) (reqs : List FReq)
+theorem fetch_read_committed_exact (parts : List Part) (hinv : ∀ pd ∈ parts, PInv pd ∧ RInv pd) (mb unk : Int) (lead : Nat → Bool) (reqs : List FReq)
     (nb : Int) (ad : Nat) :
-    ∀ r ∈ fetchLoop parts true mb unk reqs nb ad, r.code = 0 → unk ≠ 0 →
+    ∀ r ∈ fetchLoop parts true mb unk lead reqs nb ad, r.code = 0 → unk ≠ 0 →
       ∃ pd pre rest, parts[r.p]? = some pd ∧ pd.batches = pre ++ r.batches ++ rest ∧
         clientView r.aborted r.batches = committedData r.batches rest := by
   induction reqs generalizing nb ad with
@@ -158,6 +158,11 @@ theorem fetch_read_committed_exact (parts : List Part) (hinv : ∀ pd ∈ parts,
             rw [List.drop_left' rfl] at h3
             exact h3
           rw [hd] at hex; exact hex
+      split at hr
+      · simp only [List.mem_cons] at hr
+        rcases hr with rfl | hr
+        · simp at hc
+        · exact ih _ _ r hr hc hunk
       split at hr
       · simp only [List.mem_cons] at hr
         rcases hr with rfl | hr
@@ -199,7 +204,7 @@ example :
 partition, same epoch — is answered with error 0 and the offset recorded for it, and no partition log changes.
 (C29 proves that the window records exactly the last five accepted batches with their offsets.) -/
 theorem retry_gets_original_offset (s : State) (v12 : Bool) (k epoch seq n nbytes : Int) (p : Nat) (tx : Bool)
-    (pd : Part) (pr : Prod) (hpd : s.parts[p]? = some pd) (hk : 0 ≤ k) (hseq : 0 ≤ seq) (hn : 0 ≤ n)
+    (pd : Part) (pr : Prod) (hpd : s.parts[p]? = some pd) (hlead : isLeader s p = true) (hk : 0 ≤ k) (hseq : 0 ≤ seq) (hn : 0 ≤ n)
     (hget : (getOrCreate (pidsGet s v12 k p tx).1 k epoch tx (pidsGet s v12 k p tx).2).2 = some pr)
     (hfence : ¬ (pr.inTx = true ∧ tx = false)) (hep : epoch = pr.epoch)
     (hseen : (getWin pr p).seen = true) (hwe : epoch = (getWin pr p).epoch)
@@ -215,7 +220,7 @@ theorem retry_gets_original_offset (s : State) (v12 : Bool) (k epoch seq n nbyte
     unfold produce
     simp only [hpd]
     have hk' : ¬ k < 0 := by omega
-    simp only [hk', decide_false, Bool.and_false, Bool.false_eq_true, if_false, hget]
+    simp only [hlead, Bool.not_true, hk', decide_false, Bool.and_false, Bool.false_eq_true, if_false, hget]
     have hf : (pr.inTx && !tx) = false := by
       cases h1 : pr.inTx <;> cases h2 : tx <;> simp_all
     have he1 : ¬ epoch < pr.epoch := by omega
@@ -268,8 +273,8 @@ theorem lso_moves_only_with_hwm (pd : Part) :
     · simp only [deleteRecords, hcond]; exact ⟨rfl, rfl⟩
 
 /-- every partition answered without error reports the partition's current bounds. -/
-theorem fetch_reports_bounds (parts : List Part) (rc : Bool) (mb unk : Int) (hunk : unk ≠ 0) (reqs : List FReq) (nb : Int) (ad : Nat) :
-    ∀ r ∈ fetchLoop parts rc mb unk reqs nb ad, r.code = 0 →
+theorem fetch_reports_bounds (parts : List Part) (rc : Bool) (mb unk : Int) (hunk : unk ≠ 0) (lead : Nat → Bool) (reqs : List FReq) (nb : Int) (ad : Nat) :
+    ∀ r ∈ fetchLoop parts rc mb unk lead reqs nb ad, r.code = 0 →
       ∃ pd, parts[r.p]? = some pd ∧ r.hwm = pd.hwm ∧ r.lso = pd.lso ∧ r.logStart = pd.logStart := by
   induction reqs generalizing nb ad with
   | nil => simp [fetchLoop]
@@ -283,6 +288,11 @@ theorem fetch_reports_bounds (parts : List Part) (rc : Bool) (mb unk : Int) (hun
       · exact absurd hc hunk
       · exact ih _ _ r hr hc
     · rename_i pd hpd
+      split at hr
+      · simp only [List.mem_cons] at hr
+        rcases hr with rfl | hr
+        · simp at hc
+        · exact ih _ _ r hr hc
       split at hr
       all_goals simp only [List.mem_cons] at hr
       · rcases hr with rfl | hr
